@@ -440,7 +440,7 @@ def expected_items():
     m = re.search(r"Theorem\s+C18_inventory\s*:.*?=\s*\[(.*?)\]\s*\.", src, flags=re.S)
     if not m:
         return None
-    return [(a, k) for a, k in re.findall(r'\(\s*"([^"]*)"\s*,\s*([A-Za-z]+)\s*\)', m.group(1))]
+    return [(a, k) for a, k in re.findall(r'\(\s*"([^"]*)"(?:%string)?\s*,\s*([A-Za-z]+)\s*\)', m.group(1))]
 
 
 if __name__ == "__main__":
